@@ -599,11 +599,18 @@ impl Rest {
             }
             // (with one and the same waker an input that is still registered need not be re-polled in
             // principle, so this oracle is evaluated for fresh-waker consumers only)
-            if !c.spec.same_waker && k + 1 < n && (t.epoch != epoch || t.last != PollRes::Pending) {
+            // Flagged only when NO registration can exist: the input was never polled, or its last
+            // poll returned an item / the end (so nothing is registered with it) and the stage did
+            // not poll it again before reporting Pending. An input whose last poll was Pending in an
+            // EARLIER poll is left to the behavioural wake oracle (an implementation may legitimately
+            // keep an internal waker registered instead of re-polling).
+            let _ = epoch;
+            if k + 1 < n && matches!(t.last, PollRes::NotPolled | PollRes::Item) {
+                let t_last = t.last;
                 drop(t);
                 let mut ps = above;
                 ps.push("C14");
-                self.violate(&ps, "pending_without_polling_input", k as i32 + 1, format!("the stream reported Pending although its input (boundary {k}) was not polled to Pending with the current waker"));
+                self.violate(&ps, "pending_without_polling_input", k as i32 + 1, format!("the stream reported Pending although the last thing it did with its input (boundary {k}) was {:?}: nothing is registered there", t_last));
                 return;
             }
         }
@@ -611,9 +618,9 @@ impl Rest {
             for (s, li) in &g.stages {
                 if let Some(i) = li {
                     let lt = self.limits.writers[*i].tap.borrow();
-                    if !c.spec.same_waker && (lt.epoch != epoch || !(lt.last == PollRes::Pending || lt.last == PollRes::End)) {
+                    if matches!(lt.last, PollRes::NotPolled | PollRes::Item) {
                         drop(lt);
-                        self.violate(&[s.prop(), "C14"], "pending_without_polling_limit", -1, format!("{:?} reported Pending although its limit stream was not polled to Pending/end with the current waker", s));
+                        self.violate(&[s.prop(), "C14"], "pending_without_polling_limit", -1, format!("{:?} reported Pending although the last poll of its limit stream returned a value (or it was never polled): nothing is registered there", s));
                         return;
                     }
                 }
